@@ -3,6 +3,8 @@ package main
 import (
 	"bytes"
 	"fmt"
+
+	"github.com/willabides/rjson"
 )
 
 // C07 — handlers see each member exactly once, in order; traversal still validates.
@@ -21,7 +23,7 @@ func (c07) Budget(tier string) (int, int) {
 	return 60000, 25
 }
 func (c07) Rule() string {
-	return "seeded scenarios: 1-4 HandleArrayValues/HandleObjectValues calls on generated / mutated / deep documents, each with a decision tape that makes the simulator-owned handler decline (return 0), consume (return the member's exact end as computed by the reference parser) or run a nested traversal, per callback; containers of <= 8 members get every 2^n decline/consume mix in the thorough tier. A run is non-trivial when at least one callback took a decision; distinct = distinct hashes of (operation kind, document class, verdict, per-callback decision) sequences."
+	return "seeded scenarios: 1-4 HandleArrayValues/HandleObjectValues calls on generated / mutated / deep documents, with no Buffer or with one Buffer reused across the calls of the scenario (sometimes used on a 10,001..30,000-deep document first), through a HandlerFunc adapter or a struct handler, each with a decision tape that makes the simulator-owned handler decline (return 0), consume (return the member's exact end as computed by the reference parser) or run a nested traversal, per callback; containers of <= 8 members get every 2^n decline/consume mix in the thorough tier. A run is non-trivial when at least one callback took a decision; distinct = distinct hashes of (operation kind, document class, verdict, per-callback decision) sequences."
 }
 func (c07) Assumptions() []string {
 	return []string{
@@ -31,7 +33,7 @@ func (c07) Assumptions() []string {
 	}
 }
 func (c07) Required(tier string) []string {
-	return []string{"H-decline", "H-consume", "H-nested", "malformed-member-declined", "null-root", "deep-root"}
+	return []string{"H-decline", "H-consume", "H-nested", "malformed-member-declined", "null-root", "deep-root", "reused-buffer", "buffer-used-on-deeper-document-before"}
 }
 
 // genContainerDoc generates a document whose first value is a container of the
@@ -153,7 +155,17 @@ func (c07) Gen(r *Rand, sc *Scenario, tier string) {
 	for i := 0; i < nops; i++ {
 		obj := r.Chance(1, 2)
 		sc.Docs = append(sc.Docs, genTraversalDoc(r, obj, true))
-		ops = append(ops, Op{Kind: kindName(obj), Doc: i, Tape: genDecisionTape(r, r.Range(0, 70), true)})
+		_ = i
+		op := Op{Kind: kindName(obj), Doc: len(sc.Docs) - 1, Tape: genDecisionTape(r, r.Range(0, 70), true), A: r.Intn(2), B: r.Intn(2)}
+		if r.Chance(1, 12) {
+			// history: the same Buffer was used on a far deeper document before (outside the
+			// property's own quantifier, so that call is executed but not judged)
+			sc.Docs = append(sc.Docs, deepDoc([]int{0, 2, 3, 1}[r.Intn(4)], []int{10001, 10002, 12000, 30000}[r.Intn(4)], "1"))
+			k := kindName(r.Chance(1, 2))
+			ops = append(ops, Op{Kind: k, Doc: len(sc.Docs) - 1, A: 1, Tape: []int{r.Intn(2)}})
+			op.A = 1
+		}
+		ops = append(ops, op)
 	}
 	sc.Tasks = [][]Op{ops}
 }
@@ -173,6 +185,7 @@ func travKind(kind string) string {
 }
 
 func (c07) Exec(sc *Scenario, st *Stats) *Violation {
+	shared := &rjson.Buffer{}
 	for oi, op := range sc.Tasks[0] {
 		doc := sc.Docs[op.Doc].Bytes()
 		if len(doc) <= 1<<16 {
@@ -180,11 +193,29 @@ func (c07) Exec(sc *Scenario, st *Stats) *Violation {
 		}
 		root, ok := refParse(doc, true)
 		if ok && root.Depth > 10000 {
-			continue // outside the property's quantifier
+			// outside the property's quantifier: executed for its effect on the shared Buffer, not judged
+			e := newHEnv(st, NewTape(op.Tape))
+			e.quiet = true
+			if op.A == 1 {
+				e.buf = shared
+			} else {
+				e.noBuf = true
+			}
+			e.traverse(travKind(op.Kind), doc)
+			st.probe("buffer-used-on-deeper-document-before")
+			st.ev("history")
+			continue
 		}
 		obj := op.Kind == "HandleObjectValues"
 		wantOK := ok && (root.Kind == KNull || (obj && root.Kind == KObj) || (!obj && root.Kind == KArr))
 		e := newHEnv(st, NewTape(op.Tape))
+		e.structH = op.B%2 == 1
+		if op.A == 1 {
+			e.buf = shared
+			st.probe("reused-buffer")
+		} else {
+			e.noBuf = true
+		}
 		st.ev(op.Kind)
 		st.ev(sc.Docs[op.Doc].Class)
 		out := e.traverse(travKind(op.Kind), doc)
